@@ -90,8 +90,11 @@ class ExtGrid(NodeElementComponent):
         branch_pit = net['_pit']['branch']
         node_pit = net["_pit"]["node"]
 
-        p_grids = np.isin(ext_grids.type.values, ["p", "pt"]) & ext_grids.in_service.values
         junction = cls.get_connected_junction(net).values
+        # only external grids at junctions that were part of the hydraulic calculation feed in
+        junction_idx_lookup = get_lookup(net, "node", "index")[cls.get_connected_node_type().table_name()]
+        junction_connected = get_lookup(net, "node", "active_hydraulics")[junction_idx_lookup[junction]]
+        p_grids = np.isin(ext_grids.type.values, ["p", "pt"]) & ext_grids.in_service.values & junction_connected
         # get indices in internal structure for junctions in ext_grid tables which are "active"
         eg_nodes = get_lookup(net, "node", "index")[cls.get_connected_node_type().table_name()][
             junction[p_grids]]
